@@ -111,6 +111,21 @@ def generate(unit, repo='/repo', import_mode=False, strip_body=()):
         text, origin = X.emit_with_lines(rt)
         g.items.append({'item': '%s %s' % (kw, name), 'file': rel, 'line': base, 'identical_to_snapshot': same})
         pieces.append((os_, oe, text, origin, '%s %s' % (kw, name), rel))
+    # closed-world check: every fn inside the named impl blocks of /repo must be under contract in this unit (verified, opaque) or be
+    # listed as ignored; a NEW method of such a type (e.g. a Hasher::write_u8 override) is code the property depends on without a contract
+    for ent in unit.get('closed_impls', []):
+        rel, ty = ent[0], ent[1]
+        try: rsrc = open(os.path.join(repo, SRC, rel)).read()
+        except OSError: continue
+        m_ = X.mask(rsrc); cut = m_.find('#[cfg(test)]')
+        if cut >= 0: m_ = m_[:cut]
+        known = set(e[1].split('::')[-1] for e in unit.get('functions', []) if e[0] == rel) | set((e[2] if len(e) > 2 else {}).get('real', e[1]).split('::')[-1] for e in unit.get('functions', []) if e[0] == rel) \
+                | set(e[1].split('::')[-1] for e in unit.get('opaque', []) if e[0] == rel) | set(ent[2] if len(ent) > 2 else [])
+        for s0, o, c in X.find_impl_blocks(m_, ty):
+            for mm in re.finditer(r'\bfn\s+([A-Za-z_0-9]+)', m_[o:c]):
+                if m_.count('{', o + 1, o + mm.start()) - m_.count('}', o + 1, o + mm.start()) != 0: continue
+                if mm.group(1) not in known:
+                    g.problems.append({'kind': 'function-not-under-contract', 'fn': '%s::%s' % (ty, mm.group(1)), 'detail': 'impl block of %s in %s has a function that is neither under contract nor listed as ignored in unit %s' % (ty, rel, unit['name'])})
     res = ov
     marks = []
     for s, e, text, origin, path, rel in sorted(pieces, key=lambda p: -p[0]):
